@@ -9,7 +9,14 @@ package corerad
 // TestVerifC20; here the real Advertiser is run on a fake connection under virtual time.
 
 import (
+	"context"
+	"errors"
 	"fmt"
+	"io"
+	"log"
+	"net"
+	"net/http"
+	"net/netip"
 	"os"
 	"syscall"
 	"testing"
@@ -17,8 +24,18 @@ import (
 	"time"
 
 	"github.com/mdlayher/corerad/internal/config"
+	"github.com/mdlayher/corerad/internal/plugin"
+	"github.com/mdlayher/corerad/internal/system"
 	"github.com/mdlayher/corerad/internal/verifh"
+	"github.com/mdlayher/metricslite"
+	"github.com/mdlayher/ndp"
 )
+
+// c20FailPlugin is a plugin whose Prepare fails (e.g. the interface vanished between dial and Prepare).
+type c20FailPlugin struct{ plugin.MTU }
+
+func (*c20FailPlugin) Prepare(*net.Interface) error { return errors.New("verif: prepare failed") }
+func (*c20FailPlugin) Apply(*ndp.RouterAdvertisement) error { return nil }
 
 func c20IsReady(a *Advertiser) bool {
 	select {
@@ -34,13 +51,15 @@ func TestVerifC20Ready(t *testing.T) {
 	defer out.Close()
 
 	type scenario struct {
-		name      string
-		firstFail error // result of the initial multicast RA's WriteTo
+		name        string
+		firstFail   error // result of the initial multicast RA's WriteTo
+		prepareFail bool  // a plugin's Prepare fails
 	}
 	scenarios := []scenario{
-		{"ok", nil},
-		{"initial-send-eperm", &os.SyscallError{Syscall: "sendmsg", Err: syscall.EPERM}},
-		{"initial-send-other", errInjected},
+		{"ok", nil, false},
+		{"initial-send-eperm", &os.SyscallError{Syscall: "sendmsg", Err: syscall.EPERM}, false},
+		{"initial-send-other", errInjected, false},
+		{"prepare-fails", nil, true},
 	}
 	for _, sc := range scenarios {
 		id := "c20ready-" + sc.name
@@ -58,6 +77,9 @@ func TestVerifC20Ready(t *testing.T) {
 			synctest.Test(t, func(t *testing.T) {
 				cfg := config.Interface{Name: "v0", Advertise: true, MinInterval: 4 * time.Second, MaxInterval: 8 * time.Second,
 					HopLimit: 64, DefaultLifetime: 1800 * time.Second}
+				if sc.prepareFail {
+					cfg.Plugins = []plugin.Plugin{&c20FailPlugin{}}
+				}
 				v := newVAdvertiser(cfg, func() bool { return false })
 				readyAtFirstWrite, writes := false, 0
 				v.conn.onWrite = func(w *vWrite) error {
@@ -96,6 +118,9 @@ func TestVerifC20Ready(t *testing.T) {
 					viol = "the advertiser reports ready before Run was called"
 				case readyAtFirstWrite:
 					viol = "the advertiser reports ready while its initial router advertisement is still being written"
+				case sc.prepareFail && (readyAfter || writes != 0 || !returned || runErr == nil):
+					viol = fmt.Sprintf("a plugin's Prepare failed: the advertiser must not become ready nor transmit and Run must return the error (ready=%v writes=%d returned=%v err=%v)", readyAfter, writes, returned, runErr)
+				case sc.prepareFail:
 				case sc.firstFail == nil && !readyAfter:
 					viol = "the advertiser never reported ready although its initialisation completed"
 				case sc.firstFail != nil && readyAfter && returned:
@@ -104,5 +129,148 @@ func TestVerifC20Ready(t *testing.T) {
 			})
 		}()
 		out.Emit(verifh.Case{ID: id, Input: map[string]any{"scenario": sc.name}, Observed: obs, Tags: []string{"ready:" + sc.name}, ImplViolation: viol})
+	}
+
+	// ---- the real Monitor: ready as soon as its first connection exists, not before Run
+	if out.Wants("c20ready-monitor") {
+		var viol string
+		var obs map[string]any
+		synctest.Test(t, func(t *testing.T) {
+			st := newVState()
+			mm := NewMetrics(metricslite.NewMemory(), "test", time.Time{}, st, nil)
+			cctx := NewContext(log.New(io.Discard, "", 0), mm, st)
+			conn := newVConn()
+			dials := 0
+			d := system.NewDialer("v0", st, system.Monitor, nil)
+			d.DialFunc = func() (*system.DialContext, error) {
+				dials++
+				if dials <= 2 {
+					// the retry right after the first failure has no delay; the next one waits 250 ms
+					return nil, fmt.Errorf("not yet: %w", system.ErrLinkNotReady)
+				}
+				return &system.DialContext{Conn: conn, Interface: &net.Interface{Name: "v0", HardwareAddr: vMAC}, IP: netip.MustParseAddr("fe80::1")}, nil
+			}
+			m := NewMonitor(cctx, "v0", d, nil, false)
+			isReady := func() bool {
+				select {
+				case <-m.Ready():
+					return true
+				default:
+					return false
+				}
+			}
+			before := isReady()
+			ctx, cancel := context.WithCancel(context.Background())
+			done := make(chan error, 1)
+			go func() { done <- m.Run(ctx) }()
+			synctest.Wait()
+			afterFailedDial := isReady() // two dials failed (link not ready): waiting in the back-off
+			time.Sleep(2 * time.Second)
+			synctest.Wait()
+			after := isReady()
+			cancel()
+			err := <-done
+			obs = map[string]any{"before_run": before, "after_failed_dial": afterFailedDial, "after_redial": after, "dials": dials, "error": fmt.Sprint(err)}
+			switch {
+			case before || afterFailedDial:
+				viol = "the monitor reports ready before it has a connection"
+			case !after:
+				viol = "the monitor never reported ready although its third dial succeeded"
+			case err != nil:
+				viol = fmt.Sprintf("cancelled monitor returned %v", err)
+			}
+		})
+		out.Emit(verifh.Case{ID: "c20ready-monitor", Input: map[string]any{"scenario": "monitor"}, Observed: obs, Tags: []string{"ready:monitor"}, ImplViolation: viol})
+	}
+
+	// ---- the real debug HTTP task and link watcher task as BuildTasks creates them (real time, real TCP)
+	if out.Wants("c20ready-http") {
+		srv := NewServer(NewContext(log.New(io.Discard, "", 0), nil, nil))
+		cfg := config.Config{}
+		cfg.Debug.Address = "127.0.0.1:0"
+		var ht *httpTask
+		for _, task := range srv.BuildTasks(cfg, http.NotFoundHandler()) {
+			if x, ok := task.(*httpTask); ok {
+				ht = x
+			}
+		}
+		var viol string
+		obs := map[string]any{}
+		if ht == nil {
+			viol = "BuildTasks created no debug HTTP task for a configured address"
+		} else {
+			readyBefore := false
+			select {
+			case <-ht.Ready():
+				readyBefore = true
+			default:
+			}
+			ctx, cancel := context.WithCancel(context.Background())
+			done := make(chan error, 1)
+			go func() { done <- ht.Run(ctx) }()
+			becameReady := false
+			select {
+			case <-ht.Ready():
+				becameReady = true
+			case <-time.After(5 * time.Second):
+			}
+			cancel()
+			var err error
+			returned := false
+			select {
+			case err = <-done:
+				returned = true
+			case <-time.After(5 * time.Second):
+			}
+			obs = map[string]any{"ready_before_run": readyBefore, "became_ready": becameReady, "returned": returned, "error": fmt.Sprint(err)}
+			switch {
+			case readyBefore:
+				viol = "the debug HTTP task reports ready before it listens"
+			case !becameReady:
+				viol = "the debug HTTP task never reported ready on a free local port"
+			case !returned:
+				viol = "the debug HTTP task did not return within 5 s of the cancellation"
+			case err != nil:
+				viol = fmt.Sprintf("the cancelled debug HTTP task returned %v", err)
+			}
+		}
+		out.Emit(verifh.Case{ID: "c20ready-http", Input: map[string]any{"scenario": "http"}, Observed: obs, Tags: []string{"ready:http"}, ImplViolation: viol})
+	}
+	for k, werr := range []error{nil, fmt.Errorf("netstate: not supported: %w", os.ErrNotExist), errors.New("netlink: boom")} {
+		id := fmt.Sprintf("c20ready-watcher-%d", k)
+		if !out.Wants(id) {
+			continue
+		}
+		wt := &watcherTask{watch: func(ctx context.Context) error {
+			if werr != nil {
+				return werr
+			}
+			<-ctx.Done()
+			return nil
+		}, ll: log.New(io.Discard, "", 0)}
+		ctx, cancel := context.WithCancel(context.Background())
+		done := make(chan error, 1)
+		go func() { done <- wt.Run(ctx) }()
+		ready := false
+		select {
+		case <-wt.Ready():
+			ready = true
+		case <-time.After(time.Second):
+		}
+		if werr == nil {
+			cancel()
+		}
+		err := <-done
+		cancel()
+		var viol string
+		switch {
+		case !ready:
+			viol = "the link watcher task does not report ready"
+		case k <= 1 && err != nil:
+			viol = fmt.Sprintf("watcher task: a clean end / an unsupported platform must not be an error, got %v", err)
+		case k == 2 && err == nil:
+			viol = "watcher task: a failing watch must be reported"
+		}
+		out.Emit(verifh.Case{ID: id, Input: map[string]any{"scenario": "watcher", "watch_error": fmt.Sprint(werr)}, Observed: fmt.Sprint(err), Tags: []string{"ready:watcher"}, ImplViolation: viol})
 	}
 }
